@@ -210,6 +210,15 @@ class P:
         if "DUMP-" in impl:
             return "the loaded cache can not be dumped: " + impl[:80]
         kind = line.split(" ", 1)[0]
+        if " || REF " in impl:
+            # relational oracle (implementation only): a restart on the saved file is transparent: the templates in force and
+            # everything decoded afterwards are what the same collector shows when it never restarted
+            impl, ref = impl.split(" || REF ", 1)
+            if impl != ref:
+                ti, tr = impl.split(" | ")[0], ref.split(" | ")[0]
+                what = ("the templates in force differ: after the restart(s) %s, without restart %s" % (ti[:200], tr[:200])) if ti != tr else \
+                       ("the same datagrams decode differently: after the restart(s) %r, without restart %r" % (impl[-200:], ref[-200:]))
+                return "a restart on the saved cache file is not transparent (%s): %s" % (line.split(" ")[2], what)
         sv = self.saved.get(line)
         if sv is not None and impl.startswith("T:"):
             got = set(":".join(x.split(":")[:2]) for x in impl[2:].split(" | ")[0].split(",") if x)
